@@ -1,6 +1,6 @@
 (** C19 — model of the plateau annealing scheme of MCMC-SAEM, default (non-oscillating) scheme
-    (leaspy/algo/algo_with_annealing.py: [__init__] l.36-73, [_initialize_annealing] l.82-115,
-    [_update_temperature] l.117-142; called from algo/fit/mcmc_saem.py::_initialize_algo l.132 and
+    (leaspy/algo/algo_with_annealing.py: [__init__] l.36-73, [_initialize_annealing] l.82-120,
+    [_update_temperature] l.122-147; called from algo/fit/mcmc_saem.py::_initialize_algo l.132 and
     ::_iteration l.160, i.e. once before the first iteration and once after every iteration).
     Exact arithmetic over [Q]; the bit-exact binary64 twin is in AnnealFloat.v.
     Definitions only; proofs are in AnnealProofs.v, the tie to the regenerated rules
@@ -56,7 +56,8 @@ Record astate : Type := {
 (** state set by the constructor (l.38-45) *)
 Definition ctor_state : astate := {| temp := 1; temp_inv := 1; period := None; decr := None |}.
 
-(** ** [_initialize_annealing] (l.82-115) *)
+(** ** [_initialize_annealing] (l.82-120).  A plateau length [n_ann / (n_plateau - 1)] below 1 (fewer
+    annealing iterations than temperature steps, no annealing iteration included) is refused (l.110-114). *)
 Definition init_anneal (c : cfg) : result astate :=
   if negb (a_on c) then Ok ctor_state                                   (* l.86 *)
   else if Qeq_bool (T0 c) 0 then Err Crash                              (* l.90: 1 / self.temperature *)
@@ -64,26 +65,28 @@ Definition init_anneal (c : cfg) : result astate :=
   else if (n_plateau c =? 1)%Z then                                     (* l.100-105: warning, return *)
     Ok {| temp := T0 c; temp_inv := 1 / T0 c; period := None; decr := None |}
   else
-    (* here n_plateau - 1 <> 0: l.107 [//] and l.113 [/] cannot fail *)
+    (* here n_plateau - 1 <> 0: l.107 [//] and l.118 [/] cannot fail *)
     let p := (n_ann c / (n_plateau c - 1))%Z in
+    if (p <? 1)%Z then Err InputError                                   (* l.110-114 *)
+    else
     let d := (T0 c - 1) / (inject_Z (n_plateau c) - 1) in
-    if Qle_bool d 0 then Err InputError                                 (* l.114 *)
+    if Qle_bool d 0 then Err InputError                                 (* l.119 *)
     else Ok {| temp := T0 c; temp_inv := 1 / T0 c; period := Some p; decr := Some d |}.
 
-(** ** [_update_temperature] (l.117-142), called with [k = current_iteration], oscillations off *)
+(** ** [_update_temperature] (l.122-147), called with [k = current_iteration], oscillations off *)
 Definition update_temperature (c : cfg) (k : Z) (st : astate) : result astate :=
-  if negb (a_on c) then Ok st else                                      (* l.121 *)
+  if negb (a_on c) then Ok st else                                      (* l.131 *)
   match period st with
-  | None => Ok st                                                       (* l.121 *)
+  | None => Ok st                                                       (* l.131 *)
   | Some p =>
-      if (k <=? n_ann c)%Z then                                         (* l.124 *)
-        if (p =? 0)%Z then Err Crash                                    (* l.126: k % 0 *)
-        else if (k mod p =? 0)%Z then                                   (* l.126 *)
+      if (k <=? n_ann c)%Z then                                         (* l.129 *)
+        if (p =? 0)%Z then Err Crash                                    (* l.131: k % 0 — unreachable after an accepted initialisation, see [init_period_pos] *)
+        else if (k mod p =? 0)%Z then                                   (* l.131 *)
           match decr st with
           | None => Err Crash                                           (* float - None *)
           | Some d =>
-              let t := Qmax (temp st - d) 1 in                          (* l.139-140 *)
-              (* l.142: 1.0 / t with t >= 1, cannot fail *)
+              let t := Qmax (temp st - d) 1 in                          (* l.144-145 *)
+              (* l.147: 1.0 / t with t >= 1, cannot fail *)
               Ok {| temp := t; temp_inv := 1 / t; period := Some p; decr := Some d |}
           end
         else Ok st
@@ -128,6 +131,14 @@ Definition default_cfg (n_iter : Z) : result cfg :=
     plateaus have at least one iteration *)
 Definition proper (c : cfg) : Prop :=
   a_on c = true /\ (2 <= n_plateau c)%Z /\ 1 < T0 c /\ (1 <= n_ann c / (n_plateau c - 1))%Z.
+
+(** a single plateau: accepted with a warning, the update never does anything *)
+Definition frozen (c : cfg) : Prop := a_on c = true /\ (n_plateau c = 1)%Z.
+
+(** fewer annealing iterations than temperature steps (plateau length 0 or negative; no annealing
+    iteration included): refused by [_initialize_annealing] *)
+Definition short (c : cfg) : Prop :=
+  a_on c = true /\ (2 <= n_plateau c)%Z /\ (n_ann c < n_plateau c - 1)%Z.
 
 (** number of plateau boundaries crossed after [k] iterations *)
 Definition crossed (c : cfg) (k : Z) : Z := (Z.min k (n_ann c) / (n_ann c / (n_plateau c - 1)))%Z.
